@@ -42,6 +42,39 @@ class depth_limit:
 _APPLY_CACHE = {}
 
 
+_TRIVIAL = {}
+_INT_WIDEN = re.compile(r"<impl (?:std::convert::|core::convert::)?From<(u8|u16|u32|u64|i8|i16|i32|i64|bool)> for (u16|u32|u64|u128|usize|i16|i32|i64|i128|isize)>::from$")
+
+
+def _trivial_ctor(name, nargs):
+    """(adt path, variant, variant index) when the local function `name` does nothing but build that aggregate from its parameters,
+    in order (a newtype / plain-struct constructor); None otherwise.  Decided from the function's body on the current tree."""
+    if not name.startswith(("wtransport::", "wtransport_proto::", "<wtransport")) or nargs == 0:
+        return None
+    key = (name, nargs)
+    if key in _TRIVIAL:
+        return _TRIVIAL[key]
+    _TRIVIAL[key] = None   # (also stops re-entrance while the body is walked)
+    import mirlib
+    res = None
+    for prog in mirlib.PROGS:
+        l = prog.fns.get(name)
+        if not l or len(l) != 1 or l[0].body is None or l[0].body.get("argc") != nargs:
+            continue
+        try:
+            ps = Walker(l[0]).run()
+        except Exception:
+            break
+        if len(ps) == 1 and ps[0].leaf[0] == "return" and all(ev[0] == "agg" for ev in ps[0].events):
+            v = strip_refs(ps[0].leaf[1])
+            if isinstance(v, tuple) and v[0] == "agg" and v[1] == "adt" and len(v[5]) == nargs and \
+                    all(isinstance(o, tuple) and o[0] == "p" and o[1] == i + 1 for i, o in enumerate(v[5])):
+                res = (v[2], v[3], v[4])
+        break
+    _TRIVIAL[key] = res
+    return res
+
+
 def _apply_value(e):
     """value of `f(arg)` for the error-mapping closure / fn item of `map_err(f)` and `ok_or_else(f)`: the closure body is walked
     with its captures and argument substituted; None when it is not a single straight-line return"""
@@ -153,6 +186,14 @@ def _canon(e, keep_sites, _d):
         if len(e[2]) == 2 and SLICE_INDEX_CALL.search(e[1]):
             # one notation for every way of taking a sub-slice: s[a..b]
             return "%s[%s]" % (canon(e[2][0], keep_sites), _range_str(e[2][1], keep_sites, canon))
+        m_ = _INT_WIDEN.search(e[1]) if len(e[2]) == 1 else None
+        if m_:
+            # `i64::from(x)` for a narrower integer x is the lossless `x as i64`
+            return "(%s as %s)" % (canon(e[2][0], keep_sites), m_.group(2))
+        tc = _trivial_ctor(e[1], len(e[2]))
+        if tc is not None:
+            # `T::new(a, b)` whose body is `T(a, b)` / `T { f: a, g: b }` and nothing else: one spelling for both
+            return canon(("agg", "adt", tc[0], tc[1], tc[2], tuple(e[2])), keep_sites)
         s = "%s(%s)" % (last2(e[1]), ",".join(canon(a, keep_sites) for a in e[2]))
         return s + ("@%d" % e[3] if keep_sites else "")
     if k == "f":
